@@ -19,6 +19,8 @@ NewChunk == /\ window = <<>>
 FeedStep == /\ window # <<>>
             /\ LET r == Feed(N, Target, buf, window)  g == NextSeg(window, seg, segOver, r) IN
                   /\ Assert(EdgeOK(N, Target, Fit, window, seg, segOver, r), <<"edge obligation failed", buf, window, seg, segOver, r>>)
+                  \* the implementation-independent form used by trace validation accepts every edge of the model
+                  /\ Assert(EdgeOKObs(N, Target, Fit, window, seg, segOver, r), <<"observable edge obligation failed", buf, window, seg, segOver, r>>)
                   /\ Emit => PrintT(<<"VEC", ToJson([n |-> N, target |-> Target, buf |-> buf, chunk |-> window])>>)
                   /\ buf' = r.buf /\ window' = r.rem /\ seg' = g.seg /\ segOver' = g.over
 Next == NewChunk \/ FeedStep
